@@ -87,6 +87,29 @@ func ruleReaderSegment(c *eng.Ctx) {
 			}
 		}
 	}
+	// a Reader that has to re-open after its segment was replaced resumes right after the last message it returned
+	if fn := c.Fn(cl + "(*Reader).ReadMessage"); fn != nil {
+		of := p.Field(clPkg, "Reader", "offset")
+		rm := eng.CallsIn(fn, cl+"readMessage")
+		ok := len(rm) == 1
+		if ok {
+			got := func(v ssa.Value) bool {
+				ex, isE := eng.Strip(v).(*ssa.Extract)
+				return isE && ex.Index == 1 && ex.Tuple == rm[0].Value()
+			}
+			sts := eng.FieldStores(fn, func(fa *ssa.FieldAddr) bool { return fieldIs(fa, of) })
+			ok = len(sts) == 1 && eng.Bin(token.ADD, got, eng.IntConst(1))(sts[0].Val)
+			// re-initialisation starts from that remembered offset
+			for _, k := range []string{cl + "commitLog.newReaderUncommitted", cl + "commitLog.newReaderCommitted"} {
+				for _, nr := range eng.CallsIn(fn, k) {
+					if !eng.Load(of, nil)(nr.Common().Args[1]) {
+						ok = false
+					}
+				}
+			}
+		}
+		c.Check(ok, "a re-opened Reader resumes after the last message it returned", p.Pos(fn.Pos()), "r.offset = (offset of the message just read) + 1; re-initialisation uses r.offset", "Reader.ReadMessage does not remember (offset of the returned message)+1 as its resume point (or does not re-open there): on a log with gaps, a reader whose segment is replaced by a compaction or truncation resumes too early and delivers messages twice, or too late and skips some")
+	}
 	// the committed reader that was parked beyond the watermark resumes at old watermark + 1
 	if fn := c.Fn(cl + "(*committedReader).Read"); fn != nil {
 		hwF := p.Field(clPkg, "committedReader", "hw")
